@@ -8,6 +8,7 @@ mod props2;
 mod props3;
 mod props4;
 mod props5;
+mod props6;
 mod util;
 
 use std::env;
